@@ -114,4 +114,155 @@ theorem any_false_of_find_none (rs : List (Bytes × GRouter)) (ip : Bytes)
     · simp only [hx, decide_false] at h
       simp [List.any_cons, hx, ih h]
 
+/-- the computation returns no Go `error` value (it returns a value, panics or hangs) -/
+def NoErr {α} (x : Outcome α) : Prop := ∀ e, x ≠ .err e
+
+theorem noErr_ok {α} (a : α) : NoErr (Outcome.ok a) := fun _ h => by cases h
+theorem noErr_panic {α} : NoErr (Outcome.panic : Outcome α) := fun _ h => by cases h
+theorem noErr_bind {α β} {x : Outcome α} {f : α → Outcome β} (hx : NoErr x) (hf : ∀ a, NoErr (f a)) : NoErr (x >>= f) := by
+  cases x with
+  | ok a => exact hf a
+  | err e => exact absurd rfl (hx e)
+  | panic => exact noErr_panic
+  | hang => intro _ h; cases h
+theorem noErr_ite {α} {c : Prop} [Decidable c] {x y : Outcome α} (hx : NoErr x) (hy : NoErr y) : NoErr (if c then x else y) := by
+  split <;> assumption
+
+theorem noErr_reslice (m : Mem) (s : Sl) (a b : Nat) : NoErr (s.reslice m a b) := by
+  unfold Sl.reslice; exact noErr_ite (noErr_ok _) noErr_panic
+theorem noErr_from (m : Mem) (s : Sl) (a : Nat) : NoErr (s.from_ m a) := noErr_reslice _ _ _ _
+theorem noErr_copyAt (m : Mem) (s : Sl) (a b : Nat) (src : Bytes) : NoErr (s.copyAt m a b src) := by
+  unfold Sl.copyAt; exact noErr_bind (noErr_reslice _ _ _ _) (fun _ => noErr_ok _)
+theorem noErr_put8 (m : Mem) (s : Sl) (i : Nat) (v : UInt8) : NoErr (s.put8 m i v) := by
+  unfold Sl.put8; exact noErr_ite (noErr_ok _) noErr_panic
+theorem noErr_put16 (m : Mem) (s : Sl) (a v : Nat) : NoErr (s.put16 m a v) := noErr_copyAt _ _ _ _ _
+theorem noErr_idx (b : Bytes) (i : Nat) : NoErr (idx b i) := by
+  unfold idx; split
+  · exact noErr_ok _
+  · exact noErr_panic
+theorem noErr_get8 (m : Mem) (s : Sl) (i : Nat) : NoErr (s.get8 m i) := by
+  unfold Sl.get8; exact noErr_ite (noErr_idx _ _) noErr_panic
+theorem noErr_encodeEther (m : Mem) (b : Sl) (t : Nat) (s d : Bytes) : NoErr (encodeEther m b t s d) := by
+  unfold encodeEther
+  refine noErr_ite noErr_panic ?_
+  refine noErr_bind (noErr_reslice _ _ _ _) (fun _ => ?_)
+  refine noErr_bind (noErr_copyAt _ _ _ _ _) (fun _ => ?_)
+  refine noErr_bind (noErr_copyAt _ _ _ _ _) (fun _ => ?_)
+  exact noErr_bind (noErr_put16 _ _ _ _) (fun _ => noErr_ok _)
+theorem noErr_etherHdrLen (m : Mem) (p : Sl) : NoErr (etherHdrLen m p) := by
+  unfold etherHdrLen
+  exact noErr_bind (noErr_get8 _ _ _) (fun _ => noErr_bind (noErr_get8 _ _ _) (fun _ => noErr_ok _))
+theorem noErr_etherPayloadSl (m : Mem) (p : Sl) : NoErr (etherPayloadSl m p) := by
+  unfold etherPayloadSl
+  refine noErr_bind (noErr_etherHdrLen _ _) (fun _ => ?_)
+  refine noErr_ite (noErr_bind (noErr_from _ _ _) (fun _ => noErr_ok _)) ?_
+  exact noErr_ite (noErr_bind (noErr_reslice _ _ _ _) (fun _ => noErr_ok _)) (noErr_ok _)
+theorem noErr_etherSetPayload (m : Mem) (p : Sl) (n : Nat) : NoErr (etherSetPayload m p n) := by
+  unfold etherSetPayload
+  exact noErr_bind (noErr_etherHdrLen _ _) (fun _ => noErr_reslice _ _ _ _)
+theorem noErr_encodeIP6 (m : Mem) (p : Sl) (h : UInt8) (s d : Bytes) : NoErr (encodeIP6 m p h s d) := by
+  unfold encodeIP6
+  refine noErr_bind (noErr_reslice _ _ _ _) (fun _ => ?_)
+  refine noErr_bind (noErr_put8 _ _ _ _) (fun _ => ?_)
+  refine noErr_bind (noErr_put8 _ _ _ _) (fun _ => ?_)
+  refine noErr_bind (noErr_put8 _ _ _ _) (fun _ => ?_)
+  refine noErr_bind (noErr_put8 _ _ _ _) (fun _ => ?_)
+  refine noErr_bind (noErr_put16 _ _ _ _) (fun _ => ?_)
+  refine noErr_bind (noErr_put8 _ _ _ _) (fun _ => ?_)
+  refine noErr_bind (noErr_put8 _ _ _ _) (fun _ => ?_)
+  refine noErr_bind (noErr_copyAt _ _ _ _ _) (fun _ => ?_)
+  exact noErr_bind (noErr_copyAt _ _ _ _ _) (fun _ => noErr_ok _)
+theorem noErr_putCks (m : Mem) (p : Sl) (k : Nat) (cs : UInt16) : NoErr (putCks m p k cs) := by
+  unfold putCks; exact noErr_bind (noErr_put8 _ _ _ _) (fun _ => noErr_put8 _ _ _ _)
+theorem noErr_append (m : Mem) (p : Sl) (b : Bytes) (nh : UInt8) :
+    NoErr (match ip6AppendPayload m p b nh with | .err _ => Outcome.panic | r => r) := by
+  cases h : ip6AppendPayload m p b nh with
+  | err e => exact noErr_panic
+  | ok a => exact noErr_ok _
+  | panic => exact noErr_panic
+  | hang => intro _ h; cases h
+
+theorem noErr_sendICMP6 (g : Mem) (hm dm s d msg : Bytes) : NoErr (sendICMP6 g hm dm s d msg) := by
+  unfold sendICMP6
+  refine noErr_ite noErr_panic ?_
+  refine noErr_bind (noErr_encodeEther _ _ _ _ _) (fun a => ?_)
+  refine noErr_bind (noErr_etherPayloadSl _ _) (fun o => ?_)
+  cases o with
+  | none => exact noErr_panic
+  | some pay =>
+    refine noErr_bind (noErr_encodeIP6 _ _ _ _ _) (fun _ => ?_)
+    refine noErr_bind (noErr_append _ _ _ _) (fun _ => ?_)
+    refine noErr_bind (noErr_etherSetPayload _ _ _) (fun _ => ?_)
+    refine noErr_bind (noErr_reslice _ _ _ _) (fun _ => ?_)
+    refine noErr_bind (noErr_reslice _ _ _ _) (fun _ => ?_)
+    refine noErr_bind (noErr_from _ _ _) (fun _ => ?_)
+    exact noErr_bind (noErr_putCks _ _ _ _) (fun _ => noErr_ok _)
+
+theorem goMod4 (a : Int) : ((goMod a 4 != 0) = true) ↔ a % 4 ≠ 0 := by
+  simp only [goMod, bne_iff_ne, ne_eq]
+  constructor
+  · intro h h'; apply h
+    exact Int.tmod_eq_zero_of_dvd (Int.dvd_of_emod_eq_zero h')
+  · intro h h'; apply h
+    exact Int.emod_eq_zero_of_dvd (Int.dvd_of_tmod_eq_zero h')
+
+theorem updRouter_comp (g : G6) (k : Bytes) (f1 f2 : GRouter → GRouter) :
+    updRouter (updRouter g k f1) k f2 = updRouter g k (fun r => f2 (f1 r)) := by
+  simp only [updRouter, List.map_map]
+  congr 1
+  apply List.map_congr_left
+  intro e _
+  by_cases h : e.1 = k <;> simp [h]
+
+/-- in a table with distinct keys the entry `find?` returns is the only one with that key -/
+theorem only_found (rs : List (Bytes × GRouter)) (ip : Bytes) (x : Bytes × GRouter)
+    (hf : rs.find? (fun e => e.1 = ip) = some x) (hnd : (rs.map (·.1)).Nodup) :
+    ∀ e ∈ rs, e.1 = ip → e = x := by
+  induction rs with
+  | nil => simp at hf
+  | cons y ys ih =>
+    simp only [List.map_cons, List.nodup_cons] at hnd
+    intro e he hk
+    simp only [List.find?_cons] at hf
+    by_cases hy : y.1 = ip
+    · simp only [hy, decide_true] at hf
+      injection hf with hf
+      subst hf
+      rcases List.mem_cons.mp he with h | h
+      · exact h
+      · exfalso; apply hnd.1
+        rw [hy, ← hk]; exact List.mem_map_of_mem h
+    · simp only [hy, decide_false] at hf
+      rcases List.mem_cons.mp he with h | h
+      · subst h; exact absurd hk hy
+      · exact ih hf hnd.2 e h hk
+
+theorem upd_found (rs : List (Bytes × GRouter)) (ip : Bytes) (x : Bytes × GRouter)
+    (hf : rs.find? (fun e => e.1 = ip) = some x) (hnd : (rs.map (·.1)).Nodup)
+    (f : GRouter → GRouter) (r' : Icmp6Hunt.Router) (hr : absRouter (f x.2) = r') :
+    absRouters (rs.map (fun e => if e.1 = ip then (e.1, f e.2) else e)) =
+      (absRouters rs).map (fun e => if e.1 = ip then (e.1, r') else e) := by
+  simp only [absRouters, List.map_map]
+  apply List.map_congr_left
+  intro e he
+  by_cases h : e.1 = ip
+  · have := only_found rs ip x hf hnd e he h
+    subst this
+    simp [h, hr]
+  · simp [h]
+
+theorem upd_new (rs : List (Bytes × GRouter)) (ip : Bytes) (r : GRouter)
+    (hf : rs.find? (fun e => e.1 = ip) = none) (f : GRouter → GRouter) :
+    (rs ++ [(ip, r)]).map (fun e => if e.1 = ip then (e.1, f e.2) else e) = rs ++ [(ip, f r)] := by
+  simp only [List.map_append, List.map_cons, List.map_nil, if_true]
+  congr 1
+  have : ∀ e ∈ rs, ¬ e.1 = ip := by
+    intro e he
+    have := List.find?_eq_none.mp hf e he
+    simpa using this
+  conv => rhs; rw [← List.map_id rs]
+  apply List.map_congr_left
+  intro e he
+  simp [this e he]
+
 end PV.Lemmas.Icmp6Tie
